@@ -453,6 +453,9 @@ Definition mem_Z (x : Z) (l : list Z) : bool := existsb (Z.eqb x) l.
 
 Definition is_integer_dy (d : dy) : bool := let q := dq d in Qeq_bool q (Qz (Qfloor q)).
 
+(* the class of instants on which the rounded-sum quirk can show: the last 25 us of a day *)
+Definition near_midnight (T : Q) : bool := Qlt_b (1 - 25 * tol_1us) (jd_frac_q T).
+
 (* B. reading a format from (jd1, jd2).  0 = specification, 2 = instant right but week/second/day not
    canonical (the day was taken from the rounded sum), 1 = wrong *)
 Definition check_from_jds (rows : list taiutc_row) (c : scale * fmt * dy * dy * value) : Z :=
@@ -465,7 +468,8 @@ Definition check_from_jds (rows : list taiutc_row) (c : scale * fmt * dy * dy * 
       if negb (fin2 w sec && is_finite d && is_gps s) then 1 else
       if negb (Qwithin tol_1ns (jd_of_gpsws (dq w) (dq sec)) T) then 1 else
       let '(w0, s0, d0) := gpsws_of_jd T in
-      if Qeq_bool (dq w) (Qz w0) && Qeq_bool (dq d) (Qz d0) && Qle_bool 0 (dq sec) && Qlt_b (dq sec) 604800 then 0 else 2
+      if Qeq_bool (dq w) (Qz w0) && Qeq_bool (dq d) (Qz d0) && Qle_bool 0 (dq sec) && Qlt_b (dq sec) 604800 then 0
+      else if near_midnight T then 2 else 1
   | _, VNum a => match to_T rows s f v with
                  | Some T' => if Qwithin tol_100us T' T then 0 else 1
                  | None => 1
@@ -491,7 +495,7 @@ Definition check_split (c : dy * dy * dy * dy * dy * dy) : Z :=
     Qeq_bool (dq mi) (dq ji - MJD0) && Qeq_bool (dq mf) (dq jf) in
   if spec_ok then 0 else
   let '(qi, qf) := split_model quirk_rounded_sum (dq j1) (dq j2) in
-  if Qeq_bool (dq ji) qi && Qeq_bool (dq jf) qf && Qeq_bool (dq mi) (rn53 (qi - MJD0)) && Qeq_bool (dq mf) qf then 2 else 1.
+  if near_midnight T && Qeq_bool (dq ji) qi && Qeq_bool (dq jf) qf && Qeq_bool (dq mi) (rn53 (qi - MJD0)) && Qeq_bool (dq mf) qf then 2 else 1.
 
 (* D. the property itself: fmt value read from (jd1, jd2), new Time from it gives (jd1', jd2') *)
 Definition resolution (f : fmt) : Q :=
